@@ -702,6 +702,41 @@ func (g *clientGen) fixedCases() []KCase {
 		c.Ops = append(c.Ops, KOp{K: "wait"}, KOp{K: "wait"}, KOp{K: "setenabled", B: true, WM: 1, Plans: []simkernel.Plan{{Items: []simkernel.Item{g.ack(0)}}}}, KOp{K: "wait"})
 		out = append(out, c)
 	}
+	// a reply that arrives after exactly k transient receive failures, k around the retry budget, for a waiting
+	// command, for WaitForPendingACKs, and on both sides of an unsolicited event; then the client is used again
+	for k := 0; k <= 12; k++ {
+		for _, kind := range []string{"eintr", "eagain"} {
+			if kind == "eagain" && (k < 8 || k > 10) {
+				continue // each EAGAIN costs the library a 50 ms pause
+			}
+			var tr []simkernel.Item
+			for i := 0; i < k; i++ {
+				tr = append(tr, simkernel.Item{K: kind})
+			}
+			after := []KOp{{K: "setenabled", B: true, WM: 1, Plans: []simkernel.Plan{{Items: []simkernel.Item{g.ack(0)}}}}, {K: "wait"}}
+			out = append(out, KCase{Kind: "history", BufLen: 64, Ops: append([]KOp{
+				{K: "setratelimit", V: 7, WM: 1, Plans: []simkernel.Plan{{Items: append(append([]simkernel.Item{}, tr...), g.ack(0))}}}}, after...)})
+			out = append(out, KCase{Kind: "history", BufLen: 64, Ops: append([]KOp{
+				{K: "setratelimit", V: 7, WM: 2, Plans: []simkernel.Plan{{Items: append(append([]simkernel.Item{}, tr...), g.ack(0))}}}, {K: "wait"}, {K: "wait"}}, after...)})
+			out = append(out, KCase{Kind: "history", BufLen: 64, Ops: append([]KOp{
+				{K: "getstatus", Plans: []simkernel.Plan{{Items: append(append(append([]simkernel.Item{}, tr...), g.ack(0)), append(append([]simkernel.Item{g.event()}, tr...), g.ownMsg(1000, g.bytesN(44), 0))...)}}}}, after...)})
+		}
+	}
+	// status replies whose fields hold small numbers (version-like values, flags), one field at a time, at the
+	// lengths of the historical layouts
+	for _, n := range []int{32, 36, 40, 44, 48} {
+		for w := 0; w*4 < n && w < 11; w++ {
+			for v := uint32(0); v <= 8; v++ {
+				b := make([]byte, n)
+				binary.LittleEndian.PutUint32(b[4*w:], v)
+				op := KOp{K: "getstatus", Plans: []simkernel.Plan{{Items: []simkernel.Item{g.ack(0), g.ownMsg(1000, b, 0)}}}}
+				out = append(out, KCase{Kind: "history", BufLen: 64, Ops: []KOp{op}})
+				if g.ctx.Prop == "C16" {
+					out = append(out, KCase{Kind: "fromwire", Prior: hex.EncodeToString(make([]byte, 44)), Buf: hex.EncodeToString(b)})
+				}
+			}
+		}
+	}
 	for _, n := range []int{64, 255, 256, 257, 300} {
 		items := []simkernel.Item{g.ack(0)}
 		for i := 0; i < n; i++ {
